@@ -126,3 +126,43 @@ def register(w):
         "fresh": "shallow",
         "properties": ["C03", "C05"],
     })
+
+
+_reg0 = register
+
+
+def register(w):
+    _reg0(w)
+    R = f"{F}::_line_string_reader"
+    C.register_class(w, {
+        "key": R,
+        "state": {"_lines": "list", "_current_line": "int"},
+        "properties": ["C03"],
+    })
+    # readline(): the next stored line and advance, "" for ever once past the end; no index error
+    C.register(w, {
+        "key": f"{R}.readline",
+        "self": R,
+        "params": {},
+        "requires": ["self._current_line >= 0"],
+        "raises": {},
+        "ensures": [
+            "implies(old(self._current_line) >= len(self._lines), "
+            "result == '' and self._current_line == old(self._current_line))",
+            "implies(old(self._current_line) < len(self._lines), "
+            "same(result, nth(self._lines, old(self._current_line))) and "
+            "self._current_line == old(self._current_line) + 1)",
+            "self._current_line >= 0"],
+        "modifies": ["self._current_line"],
+        "properties": ["C03"],
+    })
+    C.register(w, {
+        "key": f"{F}::lambda_assure",
+        "params": {"east": "py", "nargs": "py"},
+        "requires": ["nargs is None or isinstance(nargs, int)", "wf(east)"],
+        "raises": {"Exception": "not (wrapped1(east) and (nargs is None or lambda_nargs(east) == nargs))"},
+        "raises_iff": {"Exception": "not (wrapped1(east) and (nargs is None or lambda_nargs(east) == nargs))"},
+        "ensures": ["same(result, east)"],
+        "modifies": [],
+        "properties": ["C02"],
+    })
